@@ -133,6 +133,5 @@ theorem prog_noDrop (o : Op) (inp : Input) (h : drops o = false) : NoDropP (prog
     intro k e
     unfold gridCell at e
     split at e <;> cases e
-  case eithSequenceError => split <;> (refine noDrop_of_allToRes ?_; all_to_res)
 
 end Fcppt.C05
